@@ -196,7 +196,7 @@ theorem stripOp_eq (s : Bytes) : Spec.stripOp s = (relOfOp (splitOp s).1, (split
       have : d ≠ 61 := fun h => hr r' (by rw [h])
       simp [this, relOfOp]
   · simp [relOfOp]
-  · rename_i h62 h60 h61
+  · rename_i _ h62 _ h60 h61
     cases s with
     | nil => simp [relOfOp]
     | cons c r =>
@@ -204,5 +204,1123 @@ theorem stripOp_eq (s : Bytes) : Spec.stripOp s = (relOfOp (splitOp s).1, (split
       have b : c ≠ 60 := fun h => h60 r (by rw [h])
       have d : c ≠ 61 := fun h => h61 r (by rw [h])
       simp [a, b, d, relOfOp]
+
+theorem mem_sevAbove {v s : Nat} : s ∈ sevAbove v ↔ s < 6 ∧ v < s := by
+  simp [sevAbove, List.mem_filter, List.mem_range]
+
+theorem mem_sevBelow {v s : Nat} : s ∈ sevBelow v ↔ s < 6 ∧ s < v := by
+  simp [sevBelow, List.mem_filter, List.mem_range]
+
+/-- each operator denotes the documented range (`>=x` = {y | y ≥ x}, `>x`, `<=x`, `<x`, `=x`/bare = {x}) -/
+theorem applyOp_spec (op v s : Nat) (hv : v < 6) :
+    s ∈ applyOp op v ↔ s < 6 ∧ (relOfOp op).holds v s = true := by
+  unfold applyOp
+  split <;> simp [relOfOp, Spec.Rel.holds, mem_sevAbove, mem_sevBelow] <;> omega
+
+/-- the bits one list item sets; `none`: unknown severity name (`res = 3`) -/
+def itemBits (it : Bytes) : Option (List Nat) :=
+  if sevLookup (splitOp it).2 = numSev then none
+  else some (applyOp (splitOp it).1 (sevLookup (splitOp it).2))
+
+theorem itemBits_nil : itemBits [] = none := by decide
+
+theorem itemBits_isSome (it : Bytes) : (itemBits it).isSome = (Spec.itemDenotes it).isSome := by
+  unfold itemBits Spec.itemDenotes
+  rw [stripOp_eq, sevLookup_spec]
+  cases h : Spec.sevIndex (splitOp it).2 with
+  | none => simp
+  | some k => have := sevIndex_lt h; simp [numSev]; omega
+
+theorem itemBits_spec {it : Bytes} {b : List Nat} {p : Nat → Bool}
+    (hb : itemBits it = some b) (hp : Spec.itemDenotes it = some p) :
+    (∀ s ∈ b, s < 6) ∧ ∀ s, s < 6 → (s ∈ b ↔ p s = true) := by
+  unfold itemBits at hb
+  unfold Spec.itemDenotes at hp
+  rw [stripOp_eq] at hp
+  rw [sevLookup_spec] at hb
+  cases h : Spec.sevIndex (splitOp it).2 with
+  | none => simp [h] at hp
+  | some k =>
+    have hk := sevIndex_lt h
+    simp only [h] at hb hp
+    have hne : ¬ k = numSev := by simp [numSev]; omega
+    simp only [hne, if_false, Option.some.injEq] at hb hp
+    subst hb; subst hp
+    constructor
+    · intro s hs; exact ((applyOp_spec _ _ _ hk).mp hs).1
+    · intro s hs
+      rw [applyOp_spec _ _ _ hk]
+      simp [hs]
+
+/-- the `while` loop of log_parse_type_sevset over the comma-separated pieces -/
+def loopItems : List Bytes → List Nat → Option (List Nat)
+  | [], acc => some acc
+  | [it], acc =>
+    if it = [] then some acc
+    else match itemBits it with
+      | none => none
+      | some b => some (acc ++ b)
+  | it :: it2 :: rest, acc =>
+    match itemBits it with
+    | none => none
+    | some b => loopItems (it2 :: rest) (acc ++ b)
+
+theorem sevLoop_eq : ∀ (fuel : Nat) (s : Bytes) (acc : List Nat), s.length < fuel →
+    sevLoop fuel (some s) acc = loopItems (Spec.splitOn 44 s) acc
+  | 0, s, acc, h => by omega
+  | fuel + 1, [], acc, _ => by simp [sevLoop, Spec.splitOn, loopItems]
+  | fuel + 1, x :: xs, acc, h => by
+    rw [splitOn_eq]
+    simp only [sevLoop]
+    cases hr : (splitAtByte 44 (x :: xs)).2 with
+    | none =>
+      have h1 := splitAtByte_snd_none hr
+      have hne : (splitAtByte 44 (x :: xs)).1 ≠ [] := by rw [h1]; simp
+      simp only [loopItems, hne, if_false, itemBits]
+      split
+      · rfl
+      · cases fuel <;> simp [sevLoop]
+    | some r =>
+      have hlen := splitAtByte_snd_some_length hr
+      obtain ⟨h2, t2, ht⟩ := splitOn_ne_nil 44 r
+      simp only [ht, loopItems, itemBits]
+      split
+      · rfl
+      · rw [sevLoop_eq fuel r _ (by simp only [List.length_cons] at h hlen; omega), ht]
+
+/-- the pieces that are items: a last empty piece (trailing comma, or the empty text) is not one -/
+def trimItems (its : List Bytes) : List Bytes :=
+  if its.getLast? = some [] then its.dropLast else its
+
+theorem trimItems_cons₂ (a b : Bytes) (rest : List Bytes) :
+    trimItems (a :: b :: rest) = a :: trimItems (b :: rest) := by
+  unfold trimItems
+  simp only [List.getLast?_cons_cons]
+  split <;> simp
+
+theorem loopItems_spec : ∀ (its : List Bytes) (acc : List Nat), its ≠ [] →
+    loopItems its acc =
+      if (trimItems its).all (fun it => (itemBits it).isSome) then
+        some (acc ++ (trimItems its).flatMap (fun it => (itemBits it).getD []))
+      else none
+  | [], _, h => absurd rfl h
+  | [it], acc, _ => by
+    unfold loopItems trimItems
+    by_cases h : it = []
+    · simp [h]
+    · simp only [h, if_false, List.getLast?_singleton, Option.some.injEq]
+      cases hb : itemBits it <;> simp [hb]
+  | it :: it2 :: rest, acc, _ => by
+    rw [trimItems_cons₂]
+    unfold loopItems
+    cases hb : itemBits it with
+    | none => simp [hb]
+    | some b =>
+      simp only []
+      rw [loopItems_spec (it2 :: rest) (acc ++ b) (by simp)]
+      simp [hb, List.append_assoc]
+
+theorem listItems_eq (txt : Bytes) : Spec.listItems txt = trimItems (Spec.splitOn 44 txt) := rfl
+
+/-- `sevset_spec`: the severity text is accepted exactly when the specification's grammar accepts
+    it, and then sets exactly the bits the specification says (`*` = all; each operator its
+    range; a list = the union; an unknown name or stray operator ⇒ nothing at all). -/
+theorem sevset_spec (txt : Bytes) :
+    (parseSevs txt).isSome = (Spec.sevDenotes txt).isSome ∧
+    ∀ S p, parseSevs txt = some S → Spec.sevDenotes txt = some p →
+      (∀ s ∈ S, s < 6) ∧ ∀ s, s < 6 → (s ∈ S ↔ p s = true) := by
+  by_cases hstar : txt = bStar
+  · subst hstar
+    have e1 : parseSevs bStar = some (List.range numSev) := rfl
+    have e2 : Spec.sevDenotes bStar = some (fun s => decide (s < 6)) := rfl
+    rw [e1, e2]
+    refine ⟨rfl, ?_⟩
+    intro S p hS hp
+    simp only [Option.some.injEq] at hS hp
+    subst hS; subst hp
+    simp [numSev, List.mem_range]
+  · have h42 : ¬ txt = [42] := hstar
+    unfold parseSevs Spec.sevDenotes
+    simp only [hstar, h42, if_false]
+    rw [sevLoop_eq _ _ _ (Nat.lt_succ_self _), listItems_eq]
+    obtain ⟨h0, t0, hne⟩ := splitOn_ne_nil 44 txt
+    rw [loopItems_spec _ _ (by rw [hne]; simp)]
+    have hall : (trimItems (Spec.splitOn 44 txt)).all (fun it => (itemBits it).isSome) =
+        (trimItems (Spec.splitOn 44 txt)).all (fun it => (Spec.itemDenotes it).isSome) := by
+      have : (fun it => (itemBits it).isSome) = (fun it => (Spec.itemDenotes it).isSome) :=
+        funext itemBits_isSome
+      rw [this]
+    rw [hall]
+    cases hc : (trimItems (Spec.splitOn 44 txt)).all (fun it => (Spec.itemDenotes it).isSome) with
+    | false => simp
+    | true =>
+      simp only [if_true, Option.isSome_some, true_and, Option.some.injEq, List.nil_append]
+      intro S p hS hp
+      subst hS; subst hp
+      rw [List.all_eq_true] at hc
+      constructor
+      · intro s hs
+        rw [List.mem_flatMap] at hs
+        obtain ⟨it, hit, hs⟩ := hs
+        have h1 := hc it hit
+        have h2 : (itemBits it).isSome = true := by rw [itemBits_isSome]; exact h1
+        obtain ⟨b, hb⟩ := Option.isSome_iff_exists.mp h2
+        obtain ⟨p, hp⟩ := Option.isSome_iff_exists.mp h1
+        rw [hb] at hs
+        exact (itemBits_spec hb hp).1 s hs
+      · intro s hs
+        rw [List.mem_flatMap, List.any_eq_true]
+        constructor
+        · rintro ⟨it, hit, hsb⟩
+          refine ⟨it, hit, ?_⟩
+          have h1 := hc it hit
+          have h2 : (itemBits it).isSome = true := by rw [itemBits_isSome]; exact h1
+          obtain ⟨b, hb⟩ := Option.isSome_iff_exists.mp h2
+          obtain ⟨p, hp⟩ := Option.isSome_iff_exists.mp h1
+          rw [hb] at hsb
+          simp only [hp]
+          exact ((itemBits_spec hb hp).2 s hs).mp hsb
+        · rintro ⟨it, hit, hps⟩
+          refine ⟨it, hit, ?_⟩
+          have h1 := hc it hit
+          have h2 : (itemBits it).isSome = true := by rw [itemBits_isSome]; exact h1
+          obtain ⟨b, hb⟩ := Option.isSome_iff_exists.mp h2
+          obtain ⟨p, hp⟩ := Option.isSome_iff_exists.mp h1
+          rw [hb]
+          simp only [hp] at hps
+          exact ((itemBits_spec hb hp).2 s hs).mpr hps
+
+theorem parseSevs_lt {txt : Bytes} {S : List Nat} (h : parseSevs txt = some S) : ∀ s ∈ S, s < 6 := by
+  have hs := sevset_spec txt
+  have : (Spec.sevDenotes txt).isSome = true := by rw [← hs.1, h]; rfl
+  obtain ⟨p, hp⟩ := Option.isSome_iff_exists.mp this
+  exact (hs.2 S p h hp).1
+
+/-- a key maps (fac, sev) in the model exactly when the specification says the key denotes it -/
+theorem parseKey_spec (key fac : Bytes) (sev : Nat) (hsev : sev < 6) :
+    (∃ f S, parseKey key = some (f, S) ∧ (ciEq f fac = true ∨ f = bStar) ∧ sev ∈ S) ↔
+      Spec.keyDenotes key fac sev = true := by
+  unfold parseKey parseKeyFull Spec.keyDenotes
+  rw [splitFirst_eq]
+  cases hr : (splitAtByte 46 key).2 with
+  | none => simp
+  | some rest =>
+    simp only []
+    have hs := sevset_spec rest
+    cases hS : parseSevs rest with
+    | none =>
+      have : Spec.sevDenotes rest = none := by
+        have := hs.1; rw [hS] at this
+        cases h : Spec.sevDenotes rest with
+        | none => rfl
+        | some p => rw [h] at this; simp at this
+      simp [this]
+    | some S =>
+      have : (Spec.sevDenotes rest).isSome = true := by rw [← hs.1, hS]; rfl
+      obtain ⟨p, hp⟩ := Option.isSome_iff_exists.mp this
+      have h2 := (hs.2 S p hS hp).2 sev hsev
+      simp only [hp, Option.some.injEq, Prod.mk.injEq]
+      constructor
+      · rintro ⟨f, S', ⟨rfl, rfl⟩, hf, hmem⟩
+        rw [Bool.and_eq_true, Bool.or_eq_true]
+        refine ⟨?_, h2.mp hmem⟩
+        rcases hf with hf | hf
+        · left; rw [← ciEq_eq_sameNoCase]; exact hf
+        · right; simpa [bStar] using hf
+      · intro h
+        rw [Bool.and_eq_true, Bool.or_eq_true] at h
+        refine ⟨_, _, ⟨rfl, rfl⟩, ?_, h2.mpr h.2⟩
+        rcases h.1 with hf | hf
+        · left; rw [ciEq_eq_sameNoCase]; exact hf
+        · right; simpa [bStar] using hf
+
+/-! ## C. log_rescan_conf -/
+
+/-- no two names equal up to case (what a `struct set` under strcasecmp guarantees) -/
+def NoDupCI (l : List Bytes) : Prop := l.Pairwise (fun a b => ciEq a b = false)
+
+/-- well-formed state: the type set and the destination set have unique keys -/
+structure WF (st : LogSt) : Prop where
+  types : NoDupCI st.types
+  dests : (openNames st).Nodup
+
+theorem NoDupCI.eq_of_ciEq : ∀ {l : List Bytes}, NoDupCI l → ∀ {a b}, a ∈ l → b ∈ l → ciEq a b = true → a = b
+  | [], _, _, _, ha, _, _ => by simp at ha
+  | x :: xs, h, a, b, ha, hb, hab => by
+    rw [NoDupCI, List.pairwise_cons] at h
+    rcases List.mem_cons.mp ha with rfl | ha'
+    · rcases List.mem_cons.mp hb with rfl | hb'
+      · rfl
+      · have := h.1 b hb'; rw [hab] at this; exact absurd this (by simp)
+    · rcases List.mem_cons.mp hb with rfl | hb'
+      · have := h.1 a ha'; rw [ciEq_comm, hab] at this; exact absurd this (by simp)
+      · exact NoDupCI.eq_of_ciEq h.2 ha' hb' hab
+
+theorem NoDupCI.append_singleton {l : List Bytes} {f : Bytes} (h : NoDupCI l)
+    (hf : ∀ n ∈ l, ciEq n f = false) : NoDupCI (l ++ [f]) := by
+  rw [NoDupCI, List.pairwise_append]
+  refine ⟨h, by simp, ?_⟩
+  intro a ha b hb
+  simp at hb; subst hb; exact hf a ha
+
+/-! ### types -/
+
+theorem canonT_ciEq (types : List Bytes) (f : Bytes) : ciEq (canonT types f) f = true := by
+  unfold canonT
+  cases h : types.find? (fun n => ciEq n f) with
+  | none => exact ciEq_refl f
+  | some n => simpa using List.find?_some h
+
+theorem canonT_mem {types : List Bytes} {f : Bytes} (h : ∃ n ∈ types, ciEq n f = true) :
+    canonT types f ∈ types := by
+  unfold canonT
+  cases hf : types.find? (fun n => ciEq n f) with
+  | none =>
+    obtain ⟨n, hn, hc⟩ := h
+    have := List.find?_eq_none.mp hf n hn
+    simp [hc] at this
+  | some n => exact List.mem_of_find?_eq_some hf
+
+theorem canonT_unique {types : List Bytes} {f n : Bytes} (hw : NoDupCI types) (hn : n ∈ types)
+    (hc : ciEq n f = true) : canonT types f = n :=
+  hw.eq_of_ciEq (canonT_mem ⟨n, hn, hc⟩) hn (ciEq_trans (canonT_ciEq types f) (ciEq_symm hc))
+
+theorem canonT_not_mem {types : List Bytes} {f : Bytes} (h : ∀ n ∈ types, ciEq n f = false) :
+    canonT types f = f := by
+  unfold canonT
+  cases hf : types.find? (fun n => ciEq n f) with
+  | none => rfl
+  | some n =>
+    have h1 := List.mem_of_find?_eq_some hf
+    have h2 : ciEq n f = true := by simpa using List.find?_some hf
+    rw [h n h1] at h2; exact absurd h2 (by simp)
+
+@[simp] theorem registerType_dests (st : LogSt) (f : Bytes) : (registerType st f).dests = st.dests := by
+  unfold registerType; split <;> rfl
+@[simp] theorem registerType_atts (st : LogSt) (f : Bytes) : (registerType st f).atts = st.atts := by
+  unfold registerType; split <;> rfl
+@[simp] theorem registerType_verbosity (st : LogSt) (f : Bytes) : (registerType st f).verbosity = st.verbosity := by
+  unfold registerType; split <;> rfl
+@[simp] theorem registerType_vts (st : LogSt) (f : Bytes) : (registerType st f).vts = st.vts := by
+  unfold registerType; split <;> rfl
+
+theorem registerType_types_mono (st : LogSt) (f : Bytes) {n : Bytes} (h : n ∈ st.types) :
+    n ∈ (registerType st f).types := by
+  unfold registerType; split
+  · exact h
+  · simp [h]
+
+theorem registerType_registered (st : LogSt) (f : Bytes) :
+    ∃ n ∈ (registerType st f).types, ciEq n f = true := by
+  unfold registerType
+  split
+  · rename_i h
+    obtain ⟨n, hn, hc⟩ := List.any_eq_true.mp h
+    exact ⟨n, hn, hc⟩
+  · exact ⟨f, by simp, ciEq_refl f⟩
+
+theorem registerType_noDup (st : LogSt) (f : Bytes) (h : NoDupCI st.types) :
+    NoDupCI (registerType st f).types := by
+  unfold registerType
+  split
+  · exact h
+  · rename_i hn
+    apply h.append_singleton
+    intro n hmem
+    cases hc : ciEq n f with
+    | false => rfl
+    | true => exact absurd (List.any_eq_true.mpr ⟨n, hmem, hc⟩) hn
+
+/-! ### destinations -/
+
+theorem findDest_some {ds : List Dest} {v : Bytes} {d : Dest} (h : findDest ds v = some d) :
+    d ∈ ds ∧ d.name = v :=
+  ⟨List.mem_of_find?_eq_some h, by simpa using List.find?_some h⟩
+
+theorem findDest_none {ds : List Dest} {v : Bytes} (h : findDest ds v = none) :
+    ∀ d ∈ ds, d.name ≠ v := by
+  intro d hd
+  have := List.find?_eq_none.mp h d hd
+  simpa using this
+
+theorem names_bump (v : Bytes) : ∀ ds : List Dest, (bump v ds).map (·.name) = ds.map (·.name)
+  | [] => rfl
+  | x :: xs => by
+    unfold bump
+    split
+    · rfl
+    · simp [names_bump v xs]
+
+theorem mem_insertDest {d x : Dest} : ∀ {ds : List Dest}, x ∈ insertDest d ds ↔ x = d ∨ x ∈ ds
+  | [] => by simp [insertDest]
+  | y :: ys => by
+    unfold insertDest
+    split
+    · simp
+    · simp only [List.mem_cons, mem_insertDest (ds := ys)]
+      constructor
+      · rintro (h | h | h) <;> simp [h]
+      · rintro (h | h | h) <;> simp [h]
+
+theorem nodup_insertDest {d : Dest} : ∀ {ds : List Dest}, (ds.map (·.name)).Nodup →
+    (∀ x ∈ ds, x.name ≠ d.name) → ((insertDest d ds).map (·.name)).Nodup
+  | [], _, _ => by simp [insertDest]
+  | y :: ys, h, hd => by
+    unfold insertDest
+    split
+    · rw [List.map_cons, List.nodup_cons]
+      refine ⟨?_, h⟩
+      intro hn
+      obtain ⟨x, hx, hxn⟩ := List.mem_map.mp hn
+      exact hd x hx hxn
+    · rw [List.map_cons, List.nodup_cons] at h ⊢
+      refine ⟨?_, nodup_insertDest h.2 (fun x hx => hd x (List.mem_cons_of_mem _ hx))⟩
+      intro hn
+      obtain ⟨x, hx, hxn⟩ := List.mem_map.mp hn
+      rcases mem_insertDest.mp hx with rfl | hx'
+      · exact hd y (List.mem_cons_self ..) hxn.symm
+      · exact h.1 (hxn ▸ List.mem_map_of_mem hx')
+
+/-- under unique keys, `bump` touches exactly the element whose key matches -/
+theorem mem_bump {v : Bytes} : ∀ {ds : List Dest}, (ds.map (·.name)).Nodup → ∀ {x' : Dest},
+    (x' ∈ bump v ds ↔ ∃ x ∈ ds, x' = if x.name = v then { x with refcnt := x.refcnt + 1 } else x)
+  | [], _, x' => by simp [bump]
+  | y :: ys, h, x' => by
+    rw [List.map_cons, List.nodup_cons] at h
+    unfold bump
+    by_cases hy : y.name = v
+    · simp only [hy, if_true, List.mem_cons]
+      have hne : ∀ x ∈ ys, ¬ x.name = v := by
+        intro x hx hxv
+        exact h.1 (by rw [hy, ← hxv]; exact List.mem_map_of_mem hx)
+      constructor
+      · rintro (rfl | hx)
+        · exact ⟨y, Or.inl rfl, by simp [hy]⟩
+        · exact ⟨x', Or.inr hx, by simp [hne x' hx]⟩
+      · rintro ⟨x, (rfl | hx), rfl⟩
+        · left; simp [hy]
+        · right; simp [hne x hx, hx]
+    · simp only [hy, if_false, List.mem_cons, mem_bump h.2]
+      constructor
+      · rintro (rfl | ⟨x, hx, rfl⟩)
+        · exact ⟨x', Or.inl rfl, by simp [hy]⟩
+        · exact ⟨x, Or.inr hx, rfl⟩
+      · rintro ⟨x, (rfl | hx), rfl⟩
+        · left; simp [hy]
+        · right; exact ⟨x, hx, rfl⟩
+
+theorem openSt_names {ds : List Dest} {v n : Bytes} :
+    n ∈ (openSt ds v).1.map (·.name) ↔ n ∈ ds.map (·.name) ∨ (n = v ∧ findDest ds v = none) := by
+  unfold openSt
+  cases h : findDest ds v with
+  | some d => simp [names_bump]
+  | none =>
+    simp only [List.mem_map, mem_insertDest]
+    constructor
+    · rintro ⟨x, (rfl | hx), rfl⟩
+      · right; simp
+      · left; exact ⟨x, hx, rfl⟩
+    · rintro (⟨x, hx, rfl⟩ | ⟨rfl, _⟩)
+      · exact ⟨x, Or.inr hx, rfl⟩
+      · exact ⟨⟨n, 0⟩, Or.inl rfl, rfl⟩
+
+/-- log_destination_open returns the destination of exactly that name -/
+theorem openSt_snd (ds : List Dest) (v : Bytes) : (openSt ds v).2 = v := by
+  unfold openSt
+  cases h : findDest ds v with
+  | some d => exact (findDest_some h).2
+  | none => rfl
+
+theorem openSt_result {ds : List Dest} {v : Bytes} : v ∈ (openSt ds v).1.map (·.name) := by
+  rw [openSt_names]
+  cases h : findDest ds v with
+  | some d =>
+    left
+    have := findDest_some h
+    exact this.2 ▸ List.mem_map_of_mem this.1
+  | none => right; exact ⟨rfl, rfl⟩
+
+theorem openSt_nodup {ds : List Dest} {v : Bytes} (h : (ds.map (·.name)).Nodup) :
+    ((openSt ds v).1.map (·.name)).Nodup := by
+  unfold openSt
+  cases hf : findDest ds v with
+  | some d => simpa [names_bump] using h
+  | none => exact nodup_insertDest h (findDest_none hf)
+
+/-! ### the invariant of the child loop -/
+
+/-- number of vector slots that point to the destination called `n` -/
+def refs (atts : List Att) (n : Bytes) : Nat := atts.countP (fun a => decide (a.dest = n))
+
+theorem refs_append_singleton (atts : List Att) (a : Att) (n : Bytes) :
+    refs (atts ++ [a]) n = refs atts n + (if a.dest = n then 1 else 0) := by
+  simp [refs, List.countP_append, List.countP_cons]
+
+theorem refs_pos_iff {atts : List Att} {n : Bytes} : 0 < refs atts n ↔ ∃ a ∈ atts, a.dest = n := by
+  simp [refs, List.countP_pos_iff]
+
+structure Inv (st : LogSt) : Prop where
+  wf : WF st
+  /-- `refcnt` as coded: number of references minus one -/
+  rc : ∀ d ∈ st.dests, d.refcnt + 1 = (refs st.atts d.name : Int)
+  /-- every vector slot points to a registered type's vector and to an open destination -/
+  own : ∀ a ∈ st.atts, a.ty ∈ st.types ∧ a.dest ∈ openNames st
+
+@[simp] theorem stepOp_reg (st : LogSt) (f : Bytes) : stepOp st (.reg f) = registerType st f := rfl
+
+theorem inv_stepOp {st : LogSt} (h : Inv st) (op : Op) : Inv (stepOp st op) := by
+  cases op with
+  | reg f =>
+    rw [stepOp_reg]
+    exact ⟨⟨registerType_noDup st f h.wf.types, by simpa [openNames] using h.wf.dests⟩,
+      by simpa using h.rc,
+      fun a ha => by
+        have := h.own a (by simpa using ha)
+        exact ⟨registerType_types_mono st f this.1, by simpa [openNames] using this.2⟩⟩
+  | att f sev v =>
+    have hwfD : (st.dests.map (·.name)).Nodup := h.wf.dests
+    refine ⟨⟨registerType_noDup st f h.wf.types, openSt_nodup hwfD⟩, ?_, ?_⟩
+    · -- reference counts
+      intro d hd
+      simp only [stepOp] at hd ⊢
+      rw [refs_append_singleton, openSt_snd]
+      unfold openSt at hd
+      cases hf : findDest st.dests v with
+      | some d0 =>
+        simp only [hf] at hd
+        obtain ⟨x, hx, rfl⟩ := (mem_bump hwfD).mp hd
+        have hrc := h.rc x hx
+        by_cases hcx : x.name = v
+        · simp [hcx]; rw [← hcx]; omega
+        · have : ¬ v = x.name := fun e => hcx e.symm
+          simp [hcx, this]; omega
+      | none =>
+        simp only [hf] at hd
+        have hnone := findDest_none hf
+        rcases mem_insertDest.mp hd with rfl | hx
+        · have : refs st.atts v = 0 := by
+            cases hr : refs st.atts v with
+            | zero => rfl
+            | succ k =>
+              have : 0 < refs st.atts v := by omega
+              obtain ⟨a, ha, hav⟩ := refs_pos_iff.mp this
+              obtain ⟨x, hx, hxn⟩ := List.mem_map.mp (h.own a ha).2
+              exact absurd (hxn.trans hav) (hnone x hx)
+          simp [this]
+        · have : ¬ v = d.name := fun e => hnone d hx e.symm
+          simp [this]; exact h.rc d hx
+    · -- ownership
+      intro a ha
+      simp only [stepOp, List.mem_append, List.mem_singleton] at ha
+      simp only [stepOp, openNames]
+      rcases ha with ha | rfl
+      · have := h.own a ha
+        exact ⟨registerType_types_mono st f this.1, openSt_names.mpr (Or.inl this.2)⟩
+      · refine ⟨canonT_mem (registerType_registered st f), ?_⟩
+        simp only [openSt_snd]; exact openSt_result
+
+theorem inv_fold {st : LogSt} (h : Inv st) (ops : List Op) : Inv (ops.foldl stepOp st) := by
+  induction ops generalizing st with
+  | nil => exact h
+  | cons op ops ih => exact ih (inv_stepOp h op)
+
+/-! ### what the loop leaves in the vectors -/
+
+theorem stepOp_atts_mono {st : LogSt} {op : Op} {a : Att} (h : a ∈ st.atts) : a ∈ (stepOp st op).atts := by
+  cases op <;> simp [stepOp, h]
+
+theorem stepOp_names_mono {st : LogSt} {op : Op} {n : Bytes} (h : n ∈ openNames st) :
+    n ∈ openNames (stepOp st op) := by
+  cases op with
+  | reg f => simpa [stepOp, openNames] using h
+  | att f s v => simp only [stepOp, openNames]; exact openSt_names.mpr (Or.inl h)
+
+theorem stepOp_types_mono {st : LogSt} {op : Op} {n : Bytes} (h : n ∈ st.types) :
+    n ∈ (stepOp st op).types := by
+  cases op <;> exact registerType_types_mono st _ h
+
+theorem fold_atts_mono {st : LogSt} {a : Att} (ops : List Op) (h : a ∈ st.atts) :
+    a ∈ (ops.foldl stepOp st).atts := by
+  induction ops generalizing st with
+  | nil => exact h
+  | cons op ops ih => exact ih (stepOp_atts_mono h)
+
+theorem fold_names_mono {st : LogSt} {n : Bytes} (ops : List Op) (h : n ∈ openNames st) :
+    n ∈ openNames (ops.foldl stepOp st) := by
+  induction ops generalizing st with
+  | nil => exact h
+  | cons op ops ih => exact ih (stepOp_names_mono h)
+
+theorem fold_types_mono {st : LogSt} {n : Bytes} (ops : List Op) (h : n ∈ st.types) :
+    n ∈ (ops.foldl stepOp st).types := by
+  induction ops generalizing st with
+  | nil => exact h
+  | cons op ops ih => exact ih (stepOp_types_mono h)
+
+/-- soundness: every slot comes from an attach operation naming exactly that destination, for a
+    facility equal up to case to the type's registered name -/
+theorem fold_sound {st : LogSt} (ops : List Op) {a : Att} (h : a ∈ (ops.foldl stepOp st).atts) :
+    a ∈ st.atts ∨ ∃ f, Op.att f a.sev a.dest ∈ ops ∧ ciEq a.ty f = true := by
+  induction ops generalizing st with
+  | nil => exact Or.inl h
+  | cons op ops ih =>
+    rcases ih h with h1 | ⟨f, hm, h2⟩
+    · cases op with
+      | reg f => left; simpa [stepOp] using h1
+      | att f s v =>
+        simp only [stepOp, List.mem_append, List.mem_singleton] at h1
+        rcases h1 with h1 | rfl
+        · exact Or.inl h1
+        · right
+          refine ⟨f, ?_, canonT_ciEq _ _⟩
+          simp only [openSt_snd]; exact List.mem_cons_self ..
+    · exact Or.inr ⟨f, List.mem_cons_of_mem _ hm, h2⟩
+
+/-- completeness: every attach operation leaves a slot -/
+theorem fold_complete {st : LogSt} (ops : List Op) {f v : Bytes} {s : Nat} (h : Op.att f s v ∈ ops) :
+    ∃ a ∈ (ops.foldl stepOp st).atts, ciEq a.ty f = true ∧ a.sev = s ∧ a.dest = v := by
+  induction ops generalizing st with
+  | nil => simp at h
+  | cons op ops ih =>
+    rcases List.mem_cons.mp h with rfl | h'
+    · refine ⟨⟨canonT (registerType st f).types f, s, (openSt st.dests v).2⟩, ?_, canonT_ciEq _ _, rfl, openSt_snd _ _⟩
+      rw [List.foldl_cons]
+      apply fold_atts_mono
+      simp [stepOp]
+    · exact ih h'
+
+/-- a destination that is open after the loop was open before or is a value of the section -/
+theorem fold_names_origin {st : LogSt} (ops : List Op) {n : Bytes} (h : n ∈ openNames (ops.foldl stepOp st)) :
+    n ∈ openNames st ∨ ∃ f s, Op.att f s n ∈ ops := by
+  induction ops generalizing st with
+  | nil => exact Or.inl h
+  | cons op ops ih =>
+    rcases ih h with h1 | ⟨f, s, hm⟩
+    · cases op with
+      | reg f => left; simpa [stepOp, openNames] using h1
+      | att f s v =>
+        simp only [stepOp, openNames] at h1
+        rcases openSt_names.mp h1 with h2 | ⟨rfl, _⟩
+        · exact Or.inl h2
+        · exact Or.inr ⟨f, s, List.mem_cons_self ..⟩
+    · exact Or.inr ⟨f, s, List.mem_cons_of_mem _ hm⟩
+
+/-! ### log_rescan_conf as a whole -/
+
+theorem openNames_prep (st : LogSt) : openNames (prep st) = openNames st := by
+  simp [prep, openNames, List.map_map, Function.comp_def]
+
+theorem inv_prep {st : LogSt} (h : WF st) : Inv (prep st) := by
+  refine ⟨⟨h.types, ?_⟩, ?_, ?_⟩
+  · rw [openNames_prep]; exact h.dests
+  · intro d hd
+    simp only [prep, List.mem_map] at hd
+    obtain ⟨x, _, rfl⟩ := hd
+    simp [prep, refs]
+  · intro a ha; simp [prep] at ha
+
+theorem parseKeyFull_ok_lt {k f : Bytes} {S : List Nat} (h : parseKeyFull k = .ok f S) : ∀ s ∈ S, s < 6 := by
+  unfold parseKeyFull at h
+  split at h
+  · simp at h
+  · rename_i rest _
+    split at h
+    · simp at h
+    · rename_i S' hS
+      simp only [KeyRes.ok.injEq] at h
+      rw [← h.2]; exact parseSevs_lt hS
+
+theorem parseKey_eq_some {k f : Bytes} {S : List Nat} : parseKey k = some (f, S) ↔ parseKeyFull k = .ok f S := by
+  unfold parseKey
+  split <;> simp_all
+
+/-- the attach operations of a section: one per (valid entry, severity of its set, value) -/
+theorem mem_sectionOps_att {sec : List Entry} {f v : Bytes} {s : Nat} :
+    Op.att f s v ∈ sectionOps sec ↔
+      ∃ e ∈ sec, ∃ S, parseKey e.key = some (f, S) ∧ s ∈ S ∧ v ∈ e.values := by
+  unfold sectionOps
+  rw [List.mem_flatMap]
+  constructor
+  · rintro ⟨e, he, hop⟩
+    refine ⟨e, he, ?_⟩
+    unfold entryOps at hop
+    split at hop
+    · simp at hop
+    · simp at hop
+    · rename_i f' S hk
+      simp only [List.mem_cons, List.mem_flatMap, List.mem_filter, List.mem_range, List.mem_map,
+        decide_eq_true_eq] at hop
+      rcases hop with hop | ⟨sev, ⟨_, hS⟩, v', hv', heq⟩
+      · cases hop
+      · cases heq
+        exact ⟨S, parseKey_eq_some.mpr hk, hS, hv'⟩
+  · rintro ⟨e, he, S, hk, hs, hv⟩
+    refine ⟨e, he, ?_⟩
+    have hk' := parseKey_eq_some.mp hk
+    unfold entryOps
+    rw [hk']
+    simp only [List.mem_cons, List.mem_flatMap, List.mem_filter, List.mem_range, List.mem_map,
+      decide_eq_true_eq]
+    right
+    exact ⟨s, ⟨parseKeyFull_ok_lt hk' s hs, hs⟩, v, hv, rfl⟩
+
+theorem inv_loop {st : LogSt} (h : WF st) (sec : List Entry) :
+    Inv ((sectionOps sec).foldl stepOp (prep st)) := inv_fold (inv_prep h) _
+
+theorem closeSt_atts (st : LogSt) : (closeSt st).atts = st.atts := rfl
+theorem closeSt_types (st : LogSt) : (closeSt st).types = st.types := rfl
+
+theorem rescan_atts (st : LogSt) (sec : List Entry) :
+    (rescan st sec).atts = ((sectionOps sec).foldl stepOp (prep st)).atts := rfl
+
+theorem rescan_types (st : LogSt) (sec : List Entry) :
+    (rescan st sec).types = ((sectionOps sec).foldl stepOp (prep st)).types := rfl
+
+/-- `refcnt` is exactly as coded: (number of vector slots pointing to the destination) − 1, and
+    what survives "Close any still-unreferenced destinations" has refcnt ≥ 0 -/
+theorem refcnt_spec {st : LogSt} (h : WF st) (sec : List Entry) :
+    ∀ d ∈ (rescan st sec).dests,
+      d.refcnt + 1 = (refs (rescan st sec).atts d.name : Int) ∧ 0 ≤ d.refcnt := by
+  intro d hd
+  simp only [rescan, closeSt, List.mem_filter] at hd
+  have hinv := inv_loop h sec
+  refine ⟨hinv.rc d hd.1, ?_⟩
+  have := hd.2
+  simp at this; exact this
+
+/-- `open_iff_referenced`: after a rescan a destination is open iff some vector slot points to it -/
+theorem open_iff_referenced {st : LogSt} (h : WF st) (sec : List Entry) (n : Bytes) :
+    n ∈ openNames (rescan st sec) ↔ ∃ a ∈ (rescan st sec).atts, a.dest = n := by
+  have hinv := inv_loop h sec
+  rw [rescan_atts]
+  simp only [rescan, closeSt, openNames, List.mem_map, List.mem_filter]
+  constructor
+  · rintro ⟨d, ⟨hd, hrc⟩, rfl⟩
+    apply refs_pos_iff.mp
+    have h1 := hinv.rc d hd
+    simp at hrc
+    omega
+  · rintro ⟨a, ha, rfl⟩
+    obtain ⟨d, hd, hdn⟩ := List.mem_map.mp (hinv.own a ha).2
+    refine ⟨d, ⟨hd, ?_⟩, hdn⟩
+    have h1 := hinv.rc d hd
+    have : 0 < refs ((sectionOps sec).foldl stepOp (prep st)).atts d.name :=
+      refs_pos_iff.mpr ⟨a, ha, hdn.symm⟩
+    simp; omega
+
+theorem open_iff_in_vector {st : LogSt} (h : WF st) (sec : List Entry) (n : Bytes) :
+    n ∈ openNames (rescan st sec) ↔ ∃ ty sev, n ∈ vec (rescan st sec) ty sev := by
+  rw [open_iff_referenced h]
+  simp only [vec, List.mem_map, List.mem_filter, decide_eq_true_eq]
+  constructor
+  · rintro ⟨a, ha, rfl⟩; exact ⟨a.ty, a.sev, a, ⟨ha, rfl, rfl⟩, rfl⟩
+  · rintro ⟨_, _, a, ⟨ha, _⟩, rfl⟩; exact ⟨a, ha, rfl⟩
+
+theorem wf_rescan {st : LogSt} (h : WF st) (sec : List Entry) : WF (rescan st sec) := by
+  have hinv := inv_loop h sec
+  refine ⟨hinv.wf.types, ?_⟩
+  have hsub : List.Sublist (openNames (rescan st sec)) (openNames ((sectionOps sec).foldl stepOp (prep st))) := by
+    simp only [rescan, closeSt, openNames]
+    exact List.Sublist.map _ List.filter_sublist
+  exact List.Nodup.sublist hsub hinv.wf.dests
+
+theorem wf_init : WF init := by
+  constructor
+  · simp only [init, NoDupCI]; decide
+  · simp [init, openNames]
+
+theorem wf_registerType {st : LogSt} (h : WF st) (f : Bytes) : WF (registerType st f) :=
+  ⟨registerType_noDup st f h.types, by simpa [openNames] using h.dests⟩
+
+theorem inv_rescan {st : LogSt} (h : WF st) (sec : List Entry) : Inv (rescan st sec) := by
+  have hinvL := inv_loop h sec
+  refine ⟨wf_rescan h sec, fun d hd => (refcnt_spec h sec d hd).1, ?_⟩
+  intro a ha
+  exact ⟨(hinvL.own a ha).1, (open_iff_referenced h sec a.dest).mpr ⟨a, ha, rfl⟩⟩
+
+theorem mem_vec {st : LogSt} {ty d : Bytes} {sev : Nat} :
+    d ∈ vec st ty sev ↔ ∃ a ∈ st.atts, a.ty = ty ∧ a.sev = sev ∧ a.dest = d := by
+  simp only [vec, List.mem_map, List.mem_filter, decide_eq_true_eq]
+  constructor
+  · rintro ⟨a, ⟨ha, h1, h2⟩, rfl⟩; exact ⟨a, ha, h1, h2, rfl⟩
+  · rintro ⟨a, ha, h1, h2, rfl⟩; exact ⟨a, ⟨ha, h1, h2⟩, rfl⟩
+
+/-- the vector of the type a facility name resolves to -/
+theorem mem_vec_canon {st : LogSt} (hinv : Inv st) {fac d : Bytes} {sev : Nat} :
+    d ∈ vec st (canonT st.types fac) sev ↔
+      ∃ a ∈ st.atts, ciEq a.ty fac = true ∧ a.sev = sev ∧ a.dest = d := by
+  rw [mem_vec]
+  constructor
+  · rintro ⟨a, ha, h1, h2, h3⟩
+    exact ⟨a, ha, by rw [h1]; exact canonT_ciEq _ _, h2, h3⟩
+  · rintro ⟨a, ha, h1, h2, h3⟩
+    exact ⟨a, ha, (canonT_unique hinv.wf.types (hinv.own a ha).1 h1).symm, h2, h3⟩
+
+theorem ciEq_star {f : Bytes} : ciEq f bStar = true ↔ f = bStar := by
+  constructor
+  · intro h
+    rw [ciEq_iff] at h
+    cases f with
+    | nil => simp [bStar] at h
+    | cons c cs =>
+      cases cs with
+      | cons _ _ => simp [bStar] at h
+      | nil =>
+        simp only [bStar, List.map_cons, List.map_nil, List.cons.injEq, and_true] at h
+        have h42 : Bytes.lower 42 = 42 := by decide
+        rw [h42] at h
+        have : c = 42 := by
+          unfold Bytes.lower at h
+          split at h
+          · rename_i hc
+            have := congrArg UInt8.toNat h
+            rw [UInt8.toNat_add] at this
+            have e1 : (32 : UInt8).toNat = 32 := rfl
+            have e2 : (42 : UInt8).toNat = 42 := rfl
+            omega
+          · exact h
+        rw [this]; rfl
+  · rintro rfl; exact ciEq_refl _
+
+/-- `C18_route`.  After a rescan, a message of facility `fac` and severity `sev` is written to
+    destination `d` exactly when some entry of the section has a key that parses to `(f, S)` with
+    `f ≃ fac` or `f = "*"`, `sev ∈ S`, and `d` among its values — whatever the state before. -/
+theorem C18_route {st : LogSt} (h : WF st) (sec : List Entry) (fac d : Bytes) (sev : Nat) :
+    d ∈ dests (rescan st sec) fac sev ↔
+      ∃ e ∈ sec, ∃ f S, parseKey e.key = some (f, S) ∧ (ciEq f fac = true ∨ f = bStar) ∧ sev ∈ S ∧
+        d ∈ e.values := by
+  have hinv := inv_rescan h sec
+  have key : ∀ g : Bytes, d ∈ vec (rescan st sec) (canonT (rescan st sec).types g) sev ↔
+      ∃ e ∈ sec, ∃ f S, parseKey e.key = some (f, S) ∧ ciEq f g = true ∧ sev ∈ S ∧ d ∈ e.values := by
+    intro g
+    rw [mem_vec_canon hinv]
+    constructor
+    · rintro ⟨a, ha, h1, h2, rfl⟩
+      rcases fold_sound (sectionOps sec) ha with h0 | ⟨f, hm, hf⟩
+      · simp [prep] at h0
+      · obtain ⟨e, he, S, hk, hs, hv'⟩ := mem_sectionOps_att.mp hm
+        exact ⟨e, he, f, S, hk, ciEq_trans (ciEq_symm hf) h1, h2 ▸ hs, hv'⟩
+    · rintro ⟨e, he, f, S, hk, hf, hs, hv⟩
+      have hm : Op.att f sev d ∈ sectionOps sec := mem_sectionOps_att.mpr ⟨e, he, S, hk, hs, hv⟩
+      obtain ⟨a, ha, h1, h2, h3⟩ := fold_complete (st := prep st) (sectionOps sec) hm
+      exact ⟨a, ha, ciEq_trans h1 hf, h2, h3⟩
+  unfold dests
+  rw [List.mem_append, key fac, key bStar]
+  constructor
+  · rintro (⟨e, he, f, S, hk, hf, r⟩ | ⟨e, he, f, S, hk, hf, r⟩)
+    · exact ⟨e, he, f, S, hk, Or.inl hf, r⟩
+    · exact ⟨e, he, f, S, hk, Or.inr (ciEq_star.mp hf), r⟩
+  · rintro ⟨e, he, f, S, hk, hf | hf, r⟩
+    · exact Or.inl ⟨e, he, f, S, hk, hf, r⟩
+    · exact Or.inr ⟨e, he, f, S, hk, by rw [hf]; exact ciEq_refl _, r⟩
+
+/-- the open destinations after a rescan: the values of the entries that parse to a non-empty
+    severity set -/
+theorem open_exact {st : LogSt} (h : WF st) (sec : List Entry) (n : Bytes) :
+    n ∈ openNames (rescan st sec) ↔
+      ∃ e ∈ sec, ∃ f S, parseKey e.key = some (f, S) ∧ S ≠ [] ∧ n ∈ e.values := by
+  constructor
+  · intro hn
+    obtain ⟨a, ha, rfl⟩ := (open_iff_referenced h sec n).mp hn
+    rcases fold_sound (sectionOps sec) ha with h0 | ⟨f, hm, _⟩
+    · simp [prep] at h0
+    · obtain ⟨e, he, S, hk, hs, hv'⟩ := mem_sectionOps_att.mp hm
+      exact ⟨e, he, f, S, hk, List.ne_nil_of_mem hs, hv'⟩
+  · rintro ⟨e, he, f, S, hk, hS, hv⟩
+    obtain ⟨s, hs⟩ := List.exists_mem_of_ne_nil S hS
+    have hm : Op.att f s n ∈ sectionOps sec := mem_sectionOps_att.mpr ⟨e, he, S, hk, hs, hv⟩
+    obtain ⟨a, ha, _, _, h3⟩ := fold_complete (st := prep st) (sectionOps sec) hm
+    exact (open_iff_referenced h sec n).mpr ⟨a, ha, h3⟩
+
+/-- `rescan_history_free`: routing and open set after a rescan are those of the section,
+    whatever the state before -/
+theorem rescan_history_free {st1 st2 : LogSt} (h1 : WF st1) (h2 : WF st2) (sec : List Entry) :
+    (∀ fac sev d, d ∈ dests (rescan st1 sec) fac sev ↔ d ∈ dests (rescan st2 sec) fac sev) ∧
+    (∀ n, n ∈ openNames (rescan st1 sec) ↔ n ∈ openNames (rescan st2 sec)) := by
+  constructor
+  · intro fac sev d; rw [C18_route h1, C18_route h2]
+  · intro n; rw [open_exact h1, open_exact h2]
+
+/-! ### with multiplicity and order -/
+
+/-- the values the section attaches for facility name `g` and severity `sev`, in the order of the
+    rescan, with repetitions -/
+def routed (ops : List Op) (g : Bytes) (sev : Nat) : List Bytes :=
+  ops.filterMap (fun op => match op with
+    | .att f s v => if ciEq f g && decide (s = sev) then some v else none
+    | .reg _ => none)
+
+/-- the slot an attach operation leaves, given the final type table -/
+def slotOf (types : List Bytes) : Op → Option Att
+  | .att f s v => some ⟨canonT types f, s, v⟩
+  | .reg _ => none
+
+theorem fold_atts_exact (ops : List Op) : ∀ {st : LogSt}, Inv st →
+    (ops.foldl stepOp st).atts = st.atts ++ ops.filterMap (slotOf (ops.foldl stepOp st).types) := by
+  induction ops with
+  | nil => intro st _; simp
+  | cons op ops ih =>
+    intro st hinv
+    have hinv1 := inv_stepOp hinv op
+    rw [List.foldl_cons, ih hinv1]
+    cases op with
+    | reg f => simp [List.filterMap_cons, slotOf]
+    | att f s v =>
+      have hF := inv_fold hinv1 ops
+      have hmem : canonT (registerType st f).types f ∈ (ops.foldl stepOp (stepOp st (.att f s v))).types :=
+        fold_types_mono ops (canonT_mem (registerType_registered st f))
+      have hcan : canonT (ops.foldl stepOp (stepOp st (.att f s v))).types f = canonT (registerType st f).types f :=
+        canonT_unique hF.wf.types hmem (canonT_ciEq _ _)
+      simp only [List.filterMap_cons, slotOf, hcan]
+      simp [stepOp, openSt_snd]
+
+theorem fold_registered {st : LogSt} (hinv : Inv st) (ops : List Op) {f v : Bytes} {s : Nat}
+    (h : Op.att f s v ∈ ops) : ∃ n ∈ (ops.foldl stepOp st).types, ciEq n f = true := by
+  obtain ⟨a, ha, h1, _, _⟩ := fold_complete (st := st) ops h
+  exact ⟨a.ty, ((inv_fold hinv ops).own a ha).1, h1⟩
+
+theorem vec_slots {types : List Bytes} (hw : NoDupCI types) (g : Bytes) (sev : Nat) :
+    ∀ l : List Op, (∀ f s v, Op.att f s v ∈ l → ∃ n ∈ types, ciEq n f = true) →
+      (((l.filterMap (slotOf types)).filter (fun a => decide (a.ty = canonT types g ∧ a.sev = sev))).map (·.dest))
+        = routed l g sev
+  | [], _ => rfl
+  | op :: l, h => by
+    have ih := vec_slots hw g sev l (fun f s v hm => h f s v (List.mem_cons_of_mem _ hm))
+    cases op with
+    | reg f => simpa [List.filterMap_cons, slotOf, routed] using ih
+    | att f s v =>
+      have hreg := h f s v (List.mem_cons_self ..)
+      have hiff : canonT types f = canonT types g ↔ ciEq f g = true := by
+        constructor
+        · intro e
+          exact ciEq_trans (ciEq_symm (canonT_ciEq types f)) (e ▸ canonT_ciEq types g)
+        · intro e
+          exact (canonT_unique hw (canonT_mem hreg) (ciEq_trans (canonT_ciEq types f) e)).symm
+      simp only [List.filterMap_cons, slotOf, routed]
+      by_cases hc : ciEq f g = true ∧ s = sev
+      · have h1 : canonT types f = canonT types g ∧ s = sev := ⟨hiff.mpr hc.1, hc.2⟩
+        simp only [List.filter_cons, h1, hc, and_self, decide_true, if_true, List.map_cons, Bool.and_self]
+        rw [ih]; rfl
+      · have h1 : ¬ (canonT types f = canonT types g ∧ s = sev) := fun h' => hc ⟨hiff.mp h'.1, h'.2⟩
+        have h2 : (ciEq f g && decide (s = sev)) = false := by
+          cases hcf : ciEq f g <;> simp_all
+        simp only [List.filter_cons, h1, decide_false, Bool.false_eq_true, if_false, h2]
+        rw [ih]; rfl
+
+/-- `dests_exact`: the destinations of a (facility, severity) after a rescan, as a LIST — order
+    and repetitions included: what the section attaches for that facility, then what it attaches
+    for `*`.  (A destination named twice is written twice; a message of facility `*` is written
+    to every `*` destination twice.) -/
+theorem dests_exact {st : LogSt} (h : WF st) (sec : List Entry) (fac : Bytes) (sev : Nat) :
+    dests (rescan st sec) fac sev =
+      routed (sectionOps sec) fac sev ++ routed (sectionOps sec) bStar sev := by
+  have hinv0 := inv_prep h
+  have hF := inv_loop h sec
+  have hatts : (rescan st sec).atts =
+      (sectionOps sec).filterMap (slotOf (rescan st sec).types) := by
+    rw [rescan_atts, rescan_types, fold_atts_exact _ hinv0]
+    simp [prep]
+  have hreg : ∀ f s v, Op.att f s v ∈ sectionOps sec → ∃ n ∈ (rescan st sec).types, ciEq n f = true :=
+    fun f s v hm => fold_registered hinv0 _ hm
+  have hw : NoDupCI (rescan st sec).types := hF.wf.types
+  unfold dests vec
+  rw [hatts]
+  rw [vec_slots hw fac sev _ hreg, vec_slots hw bStar sev _ hreg]
+
+/-! ### the pinned snapshot and destination names that differ only in letter case
+
+  On snapshot 647fb5c the destination set was keyed with strcasecmp (`rescanPinned`).  These two
+  kernel-checked evaluations are why the comparator was changed. -/
+
+/-- `a.error` → "X", `a.info` → "x" (set order of the two children: a.error, a.info) -/
+def aliasSec : List Entry :=
+  [⟨[97, 46, 101, 114, 114, 111, 114], [[88]]⟩, ⟨[97, 46, 105, 110, 102, 111], [[120]]⟩]
+
+/-- within ONE section, pinned code: the `info` messages of facility `a` go to the destination
+    object opened as "X"; "x" is never opened — although the section (and the specification) say
+    "x".  The repaired code routes them to "x". -/
+theorem alias_same_section_witness :
+    dests (rescanPinned init aliasSec) [97] sevInfo = [[88]] ∧
+    openNames (rescanPinned init aliasSec) = [[88]] ∧
+    Spec.routes aliasSec [97] sevInfo [120] = true ∧
+    Spec.routes aliasSec [97] sevInfo [88] = false ∧
+    dests (rescan init aliasSec) [97] sevInfo = [[120]] := by decide
+
+def secUpper : List Entry := [⟨[97, 46, 105, 110, 102, 111], [[88]]⟩]   -- a.info → "X"
+def secLower : List Entry := [⟨[97, 46, 105, 110, 102, 111], [[120]]⟩]  -- a.info → "x"
+
+/-- across a reload, pinned code: the same new section routes differently depending on what was
+    open before; the repaired code does not. -/
+theorem alias_history_witness :
+    dests (rescanPinned (rescanPinned init secUpper) secLower) [97] sevInfo = [[88]] ∧
+    dests (rescanPinned init secLower) [97] sevInfo = [[120]] ∧
+    dests (rescan (rescan init secUpper) secLower) [97] sevInfo = [[120]] := by decide
+
+/-! ## D. the effectful walk computes the same state -/
+
+theorem Run.log_st (r : Run) (fac : Bytes) (sev : Nat) (m : Bytes) : (r.log fac sev m).st = r.st := by
+  unfold Run.log; split <;> rfl
+
+theorem Run.log_exit_of_some {r : Run} (h : r.exit.isSome = true) (fac : Bytes) (sev : Nat) (m : Bytes) :
+    r.log fac sev m = r := by
+  unfold Run.log; simp [h]
+
+theorem Run.log_exit_none {r : Run} (h : r.exit = none) (fac : Bytes) {sev : Nat} (m : Bytes)
+    (hs : sev ≠ sevFatal) : (r.log fac sev m).exit = none := by
+  unfold Run.log; simp [h, hs]
+
+theorem Run.log_fatal_exit {r : Run} (h : r.exit = none) (fac : Bytes) (m : Bytes) :
+    (r.log fac sevFatal m).exit = some 1 := by
+  unfold Run.log; simp [h]
+
+theorem stepOpR_of_exit {co : Bytes → Bool} {r : Run} (h : r.exit.isSome = true) (op : Op) :
+    stepOpR co r op = r := by
+  unfold stepOpR; simp [h]
+
+theorem foldR_of_exit {co : Bytes → Bool} {r : Run} (h : r.exit.isSome = true) (ops : List Op) :
+    ops.foldl (stepOpR co) r = r := by
+  induction ops with
+  | nil => rfl
+  | cons op ops ih => rw [List.foldl_cons, stepOpR_of_exit h, ih]
+
+theorem stepOpR_state {co : Bytes → Bool} {r : Run} {op : Op} (h : (stepOpR co r op).exit = none) :
+    (stepOpR co r op).st = stepOp r.st op := by
+  unfold stepOpR at h ⊢
+  cases hr : r.exit with
+  | some n => simp [hr] at h
+  | none =>
+    simp only [hr, Option.isSome_none, Bool.false_eq_true, if_false] at h ⊢
+    cases op with
+    | reg f => rfl
+    | att f sev v =>
+      simp only [] at h ⊢
+      split at h
+      · rename_i m _
+        have h1 := Run.log_exit_none hr bCore (attachingMsg v (canonT (registerType r.st f).types f) sev)
+          (show sevInfo ≠ sevFatal by decide)
+        rw [Run.log_fatal_exit h1] at h; exact absurd h (by simp)
+      · simp only [Run.log_st]
+      · simp only [Run.log_st]
+
+theorem foldR_state {co : Bytes → Bool} (ops : List Op) {r : Run}
+    (h : (ops.foldl (stepOpR co) r).exit = none) :
+    (ops.foldl (stepOpR co) r).st = ops.foldl stepOp r.st := by
+  induction ops generalizing r with
+  | nil => rfl
+  | cons op ops ih =>
+    rw [List.foldl_cons] at h ⊢
+    cases he : (stepOpR co r op).exit with
+    | some n =>
+      rw [foldR_of_exit (by simp [he])] at h
+      rw [he] at h; exact absurd h (by simp)
+    | none => rw [ih h, stepOpR_state he]; rfl
+
+theorem closeR_state (r : Run) : (closeR r).exit = none → (closeR r).st = closeSt r.st := by
+  unfold closeR
+  split
+  · rename_i h; intro h2; cases hr : r.exit <;> simp_all
+  · intro _; rfl
+
+theorem closeR_exit (r : Run) : (closeR r).exit = r.exit := by
+  unfold closeR; split <;> rfl
+
+/-- `rescanR_state`: when log_rescan_conf comes back (no LOG_FATAL), the tables are `rescan` -/
+theorem rescanR_state {co : Bytes → Bool} {r : Run} {sec : List Entry}
+    (h : (rescanR co r sec).exit = none) : (rescanR co r sec).st = rescan r.st sec := by
+  unfold rescanR at h ⊢
+  cases hr : r.exit with
+  | some n => simp [hr] at h
+  | none =>
+    simp only [hr, Option.isSome_none, Bool.false_eq_true, if_false] at h ⊢
+    rw [closeR_state _ h]
+    rw [closeR_exit] at h
+    rw [foldR_state _ h]
+    rfl
+
+/-- a destination name log_destination_open can open: `file:<path>` (method in any case, shorter
+    than the 32-byte buffer) with a path fopen accepts.  This is assumption F25. -/
+def Openable (co : Bytes → Bool) (v : Bytes) : Prop :=
+  ∃ p, (splitAtByte 58 v).2 = some p ∧ (splitAtByte 58 v).1.length < 32 ∧
+    ciEq (splitAtByte 58 v).1 bFile = true ∧ co p = true
+
+theorem openCheck_ok {co : Bytes → Bool} {v : Bytes} (h : Openable co v) (ds : List Dest) :
+    openCheck co ds v = .existing ∨ ∃ p, openCheck co ds v = .fresh p := by
+  obtain ⟨p, h1, h2, h3, h4⟩ := h
+  unfold openCheck
+  cases findDest ds v with
+  | some d => left; rfl
+  | none =>
+    right
+    refine ⟨p, ?_⟩
+    simp only [h1]
+    have : ¬ (splitAtByte 58 v).1.length ≥ 32 := by omega
+    simp [this, h3, h4]
+
+theorem stepOpR_alive {co : Bytes → Bool} {r : Run} (hr : r.exit = none) {op : Op}
+    (hop : ∀ f s v, op = Op.att f s v → Openable co v) : (stepOpR co r op).exit = none := by
+  unfold stepOpR
+  simp only [hr, Option.isSome_none, Bool.false_eq_true, if_false]
+  cases op with
+  | reg f => rfl
+  | att f sev v =>
+    simp only []
+    have h1 := Run.log_exit_none hr bCore (attachingMsg v (canonT (registerType r.st f).types f) sev)
+      (show sevInfo ≠ sevFatal by decide)
+    rcases openCheck_ok (hop f sev v rfl) (r.log bCore sevInfo (attachingMsg v (canonT (registerType r.st f).types f) sev)).st.dests with h | ⟨p, h⟩
+    · rw [h]; exact h1
+    · rw [h]; exact h1
+
+theorem foldR_alive {co : Bytes → Bool} (ops : List Op) {r : Run} (hr : r.exit = none)
+    (hop : ∀ f s v, Op.att f s v ∈ ops → Openable co v) : (ops.foldl (stepOpR co) r).exit = none := by
+  induction ops generalizing r with
+  | nil => exact hr
+  | cons op ops ih =>
+    rw [List.foldl_cons]
+    apply ih
+    · exact stepOpR_alive hr (fun f s v e => hop f s v (by rw [e]; exact List.mem_cons_self ..))
+    · intro f s v hm; exact hop f s v (List.mem_cons_of_mem _ hm)
+
+/-- `rescanR_alive_of_openable`: under F25 (every value of the section can be opened) a rescan
+    never ends in LOG_FATAL -/
+theorem rescanR_alive_of_openable {co : Bytes → Bool} {r : Run} (hr : r.exit = none) {sec : List Entry}
+    (h : ∀ e ∈ sec, ∀ v ∈ e.values, Openable co v) : (rescanR co r sec).exit = none := by
+  unfold rescanR
+  simp only [hr, Option.isSome_none, Bool.false_eq_true, if_false]
+  rw [closeR_exit]
+  apply foldR_alive
+  · rfl
+  · intro f s v hm
+    obtain ⟨e, he, _, _, _, hv⟩ := mem_sectionOps_att.mp hm
+    exact h e he v hv
+
+/-! ## E. lines -/
+
+/-- `line_complete`: every record a message leaves in a file is
+    `(<facility as registered>:<severity name>) <message>`, the registered facility being the
+    message's own facility up to letter case, the severity the message's own, the text the
+    message's own (cut at 1023 bytes by the 1024-byte format buffer). -/
+theorem line_complete (st : LogSt) (fac : Bytes) (sev : Nat) (m : Bytes) :
+    ∀ p ∈ emit st fac sev m,
+      p.1 ∈ dests st fac sev ∧
+      p.2 = [40] ++ canonT st.types fac ++ [58] ++ sevName sev ++ [41, 32] ++ m.take 1023 ∧
+      ciEq (canonT st.types fac) fac = true := by
+  intro p hp
+  simp only [emit, List.mem_map] at hp
+  obtain ⟨d, hd, rfl⟩ := hp
+  exact ⟨hd, rfl, canonT_ciEq _ _⟩
+
+theorem emit_dests (st : LogSt) (fac : Bytes) (sev : Nat) (m : Bytes) :
+    (emit st fac sev m).map (·.1) = dests st fac sev := by
+  simp [emit, List.map_map, Function.comp_def]
+
+/-- `console_silent` (for C09): at verbosity 0 nothing is echoed to stdout -/
+theorem console_silent (st : LogSt) (h : st.verbosity = 0) (fac : Bytes) (sev : Nat) (m : Bytes) :
+    consoleEcho st fac sev m = [] ∧ ∀ ev ∈ logEvs st fac sev m, ∀ t, ev ≠ Ev.console t := by
+  have : consoleEcho st fac sev m = [] := by simp [consoleEcho, h]
+  refine ⟨this, ?_⟩
+  intro ev hev t
+  simp only [logEvs, this, List.map_nil, List.append_nil, List.mem_map] at hev
+  obtain ⟨p, _, rfl⟩ := hev
+  simp
 
 end Iauthd.Log
